@@ -25,7 +25,7 @@ import (
 func TestMain(m *testing.M) {
 	harness.Describe(
 		"conversations of 1..4 TCP connections (IPv4, some IPv6; endpoints drawn from small address/port pools so that connections share addresses and ports; ISNs biased to the 2^32 wrap) with two payload streams of 0..65536 bytes each (mostly < 300), segmented by fixed MSS or random sizes (incl. zero-length and 1-byte segments), sent by a harness TCP sender (SYN, SYN+ACK, ACK, data with PSH+ACK, pure ACKs, FIN per direction incl. half-close and FIN riding on data, or RST, or left open), connections interleaved packet by packet, then transformed by 0..5 rapid-drawn edits on the wire list: fragment an IPv4 datagram at 8-byte aligned cut points, duplicate a packet/fragment (copy lands 0..3 places later), swap two adjacent packets, omit a packet (handshake and RST packets are only duplicated), re-segmented retransmission; in 1 of ~50 cases every copy of one SYN+ACK is removed (the server direction of that connection is then not asserted). Framing: Ethernet (optionally 802.1Q tagged, optionally padded to 60 bytes), raw IP (101), IPv4 (228), IPv6 (229), Linux SLL, SLL2, BSD loopback in file byte order; pcap LE/BE x usec/nsec, pcapng LE/BE with 1..2 interfaces (possibly different link types, late interface blocks, option lists, unknown/statistics/name-resolution blocks in between, explicit or -1 section length, sometimes a second section with a fixed small conversation in the opposite byte order in front). Observed through the decode tree (TestFlows) and through jq `.tcp_connections[] | .client,.server | {ip, port|toactual, skipped_bytes, stream|tobytes}` / `.ipv4_reassembled[]` (TestFlowsJQ). Non-trivial: (>= 2 connections interleaved or >= 1 effective duplicate/swap/fragmentation/omission) and some direction with >= 2 data segments. distinct = hash of connection specs + file spec + wire list.",
-		"the SYN, SYN+ACK and first ACK of a connection and a closing RST are never fragmented or swapped with packets of their own connection, the SYN and the RST are never omitted (without the SYN no observer knows where a stream starts; after a RST the endpoints discard data themselves); nothing is (re)transmitted behind the RST of its connection",
+		"the SYN, SYN+ACK and first ACK of a connection and a closing RST are never fragmented or swapped with packets of their own connection, the RST is never omitted (after a RST the endpoints discard data themselves); the SYN alone is never omitted, but in about 1 of 10 cases the WHOLE handshake of one connection is missing (a capture that starts in mid-connection): such a connection is asserted in full only when every data byte of both directions is in the capture (no observer can know where its streams start otherwise), its endpoints are matched by address and port (which side fq calls client is not asserted), and a connection without any captured payload may be absent; nothing is (re)transmitted behind the RST of its connection",
 		"connections are matched by their unordered address/port 4-tuple, the order of .tcp_connections is not asserted; for a pcapng file with two sections the flows of all sections together are compared (how fq groups them is not part of the property)",
 		"two connections never use the same unordered address/port 4-tuple (they could not be told apart when interleaved)",
 		"loss at the very end of a direction is only asserted to be signalled when a captured FIN of that direction proves it; a lost tail with nothing captured behind it is unobservable and not asserted",
